@@ -103,26 +103,33 @@ func (c ConditionFunction) Evaluate(a interface{}, b interface{}) (bool, error) 
 	}
 	switch c {
 	case ConditionEqual:
-		return reflect.DeepEqual(a, b), nil
+		return valuesEqual(x, y), nil
 	case ConditionNotEqual:
-		return !reflect.DeepEqual(a, b), nil
+		return !valuesEqual(x, y), nil
 	case ConditionIncludes:
 		switch x.Kind() {
 		case reflect.Slice:
 			return sliceContains(x, y), nil
 		case reflect.Map:
 			return mapContains(x, y), nil
+		case reflect.Ptr:
+			// an optional value is a set of at most one element
+			return y.IsNil() || valuesEqual(x, y), nil
 		case reflect.Int, reflect.Float64, reflect.Bool, reflect.String:
 			return reflect.DeepEqual(a, b), nil
 		default:
 			return false, fmt.Errorf("condition not supported on %s", x.Kind())
 		}
 	case ConditionExcludes:
+		// RFC7047: the column does not include any of the elements (pairs) of
+		// the value
 		switch x.Kind() {
 		case reflect.Slice:
-			return !sliceContains(x, y), nil
+			return !sliceIntersects(x, y), nil
 		case reflect.Map:
-			return !mapContains(x, y), nil
+			return !mapIntersects(x, y), nil
+		case reflect.Ptr:
+			return x.IsNil() || y.IsNil() || !valuesEqual(x, y), nil
 		case reflect.Int, reflect.Float64, reflect.Bool, reflect.String:
 			return !reflect.DeepEqual(a, b), nil
 		default:
@@ -173,6 +180,48 @@ func (c ConditionFunction) Evaluate(a interface{}, b interface{}) (bool, error) 
 	}
 	// we should never get here
 	return false, fmt.Errorf("unreachable condition")
+}
+
+// valuesEqual compares two values of the same kind as OVSDB values: sets and
+// maps regardless of element order, an unset set or map like an empty one,
+// optional values by what they point to.
+func valuesEqual(x, y reflect.Value) bool {
+	switch x.Kind() {
+	case reflect.Slice:
+		return x.Len() == y.Len() && sliceContains(x, y)
+	case reflect.Map:
+		return x.Len() == y.Len() && mapContains(x, y)
+	case reflect.Ptr:
+		if x.IsNil() || y.IsNil() {
+			return x.IsNil() && y.IsNil()
+		}
+		return reflect.DeepEqual(x.Elem().Interface(), y.Elem().Interface())
+	default:
+		return reflect.DeepEqual(x.Interface(), y.Interface())
+	}
+}
+
+// sliceIntersects returns whether any element of y is in x
+func sliceIntersects(x, y reflect.Value) bool {
+	for i := 0; i < y.Len(); i++ {
+		if sliceContains(x, y.Slice(i, i+1)) {
+			return true
+		}
+	}
+	return false
+}
+
+// mapIntersects returns whether any key-value pair of y is in x
+func mapIntersects(x, y reflect.Value) bool {
+	iter := y.MapRange()
+	for iter.Next() {
+		one := reflect.MakeMapWithSize(y.Type(), 1)
+		one.SetMapIndex(iter.Key(), iter.Value())
+		if mapContains(x, one) {
+			return true
+		}
+	}
+	return false
 }
 
 func sliceContains(x, y reflect.Value) bool {
